@@ -225,6 +225,7 @@ type c09Scn struct {
 	cs       *vg.Cases // for counters raised while a call is observed
 	trustedBefore []int64 // heights in the store when the current call began
 	forceChurn    map[int64]int // height -> 1: a power changes there, 2: a validator is replaced there
+	valPlan       func(h int64) *c09VS // the validator set of every height, when the scenario fixes them
 	forkKind string    // "", "lunatic", "equivocation", "amnesia"
 	forkDT   time.Duration
 }
@@ -602,8 +603,13 @@ func (sc *c09Scn) genChainP(n int64, fixed []int64) {
 	}
 	sc.vals = make([]*c09VS, n+2)
 	sc.vals[1] = sc.mkVS(keys, pows)
+	if sc.valPlan != nil {
+		sc.vals[1] = sc.valPlan(1)
+	}
 	for h := int64(2); h <= n+1; h++ {
-		if k, ok := sc.forceChurn[h]; ok && fixed == nil {
+		if sc.valPlan != nil {
+			sc.vals[h] = sc.valPlan(h)
+		} else if k, ok := sc.forceChurn[h]; ok && fixed == nil {
 			cur := sc.vals[h-1]
 			keys := append([]int{}, cur.keys...)
 			pows := append([]int64{}, cur.pows...)
@@ -635,7 +641,7 @@ func (sc *c09Scn) genChainP(n int64, fixed []int64) {
 		sc.times[h] = t
 		sp := c09Spec{kind: "genuine", chain: c09ChainID, height: h, t: t, last: last, vs: sc.vals[h], nvh: sc.vals[h+1].hash,
 			app: c09H(fmt.Sprintf("app-%d", h%3)), data: c09H("data"), ver: version.BlockProtocol}
-		if fixed != nil || r.Chance(40) {
+		if fixed != nil || sc.valPlan != nil || r.Chance(40) {
 			sp.modes = sc.allGood(len(sp.vs.keys))
 		} else {
 			sp.modes = sc.minimalModes(sp.vs)
@@ -2631,6 +2637,130 @@ func c09Attack(r *vg.Rand, o c09AttackOpt) *c09Scn {
 	return sc
 }
 
+
+// ---------------------------------------------------------------- bisection families
+// Geometry of both: root 2, target 10; verifySkipping asks for 10, then the pivots 6, 8, 9
+// (2 + 8*9/16 = 6, 6 + 4*9/16 = 8, 8 + 2*9/16 = 9).
+
+// forgedRun builds forged blocks for heights from..to, chained on the genuine block from-1, with
+// validator set vsAt(h) and NextValidatorsHash vsAt(h+1).hash
+func (sc *c09Scn) forgedRun(from, to int64, kind string, vsAt func(h int64) *c09VS) map[int64]int {
+	out := map[int64]int{}
+	last := types.BlockID{Hash: sc.ghash(from - 1), PartSetHeader: c09PSH}
+	for h := from; h <= to; h++ {
+		sp := sc.gspec[h]
+		sp.kind = kind
+		sp.vs = vsAt(h)
+		sp.nvh = vsAt(h + 1).hash
+		sp.app = c09H("forged-app")
+		sp.modes = nil
+		sp.last = last
+		out[h] = sc.build(sp)
+		last = types.BlockID{Hash: sc.blocks[out[h]].lb.Hash(), PartSetHeader: c09PSH}
+	}
+	return out
+}
+
+// pivot-level: trust level num/den above 1/3.  The primary and every responsive witness serve,
+// from the first pivot (height 6) on, blocks of a set made of a coalition of the trusted set
+// holding MORE than 1/3 but NOT more than num/den of its power, plus keys of their own.  No step
+// from a genuine block to a forged one is valid at the configured level; a client that judged
+// pivots at 1/3 would accept 2 -> 6 and then 6 -> 10 (the forged set signs itself).
+func c09PivotLevel(r *vg.Rand, num, den uint64) *c09Scn {
+	sc := c09NewScn(r)
+	sc.num, sc.den = num, den
+	sc.genChainP(11, []int64{2, 1, 1, 2})
+	V := sc.vals[1]
+	tot := V.total()
+	p := tot * int64(num) / int64(den) // not MORE than the level; > tot/3 for the levels used
+	co := c09Subset(V, p)
+	var keys []int
+	var pows []int64
+	for _, i := range co {
+		keys = append(keys, V.keys[i])
+		pows = append(pows, V.pows[i])
+	}
+	for i := 0; i < 2; i++ {
+		keys = append(keys, sc.freshKey())
+		pows = append(pows, int64(1+r.Intn(2)))
+	}
+	F := sc.mkVS(keys, pows)
+	forged := sc.forgedRun(6, sc.n, fmt.Sprintf("forged(coalition %v power %d of %d: above 1/3, not above %d/%d)", co, p, tot, num, den),
+		func(int64) *c09VS { return F })
+	sc.root = 2
+	sc.rootHash = sc.ghash(2)
+	sc.ops = []c09Op{{h: 10, now: sc.nowMain}}
+	nw := 1 + r.Intn(2)
+	sc.setProviders(1 + nw)
+	for _, pr := range sc.provs {
+		s := sc.honestScript()
+		for h, i := range forged {
+			s[h] = []c09Reply{c09B(i)}
+		}
+		s[0] = []c09Reply{c09B(forged[sc.n])}
+		pr.script, pr.kind, pr.validating = s, "colluder", r.Bool()
+	}
+	for _, i := range r.Perm(len(sc.provs)) {
+		sc.order = append(sc.order, sc.provs[i].id)
+	}
+	return sc
+}
+
+// stale-set: the validator set changes between the root (R = k1:4 k2:4 k3:1, heights 1..4) and
+// the first pivot (Q = k1:1 k4:5 k5:5, from height 5): k1 holds more than 1/3 of R and less than
+// 1/3 of Q.  The primary forks from height 7: 7..9 carry the set {k1, a key of its own}, 10.. a
+// set of its own.  From the root neither 10 nor anything genuine leads to the fork at the
+// configured level except through k1 judged by R; from the pivot 6 (set Q) the step to 8 is not
+// trusted.  A client that keeps judging by the ROOT's set after advancing to the pivot accepts
+// 6 -> 8, and the evidence it then forms against the primary (common height 6) is one no full
+// node admits: less than 1/3 of the validators of height 6 signed the conflicting block.
+func c09StaleSet(r *vg.Rand, collude bool) *c09Scn {
+	sc := c09NewScn(r)
+	k := []int{sc.freshKey(), sc.freshKey(), sc.freshKey(), sc.freshKey(), sc.freshKey()}
+	R := sc.mkVS([]int{k[0], k[1], k[2]}, []int64{4, 4, 1})
+	Q := sc.mkVS([]int{k[0], k[3], k[4]}, []int64{1, 5, 5})
+	sc.valPlan = func(h int64) *c09VS {
+		if h <= 4 {
+			return R
+		}
+		return Q
+	}
+	sc.genChain(11)
+	F2 := sc.mkVS([]int{k[0], sc.freshKey()}, []int64{10, 1})
+	F3 := sc.mkVS([]int{sc.freshKey(), sc.freshKey()}, []int64{5, 5})
+	forged := sc.forgedRun(7, sc.n, "forged(set with k1 at 7..9, foreign set from 10)", func(h int64) *c09VS {
+		if h <= 9 {
+			return F2
+		}
+		return F3
+	})
+	sc.root = 2
+	sc.rootHash = sc.ghash(2)
+	sc.ops = []c09Op{{h: 10, now: sc.nowMain}}
+	np := 2
+	if collude {
+		np = 3
+	}
+	sc.setProviders(np)
+	for i, pr := range sc.provs {
+		s := sc.honestScript()
+		if i == 0 || (collude && i == 2) {
+			for h, b := range forged {
+				s[h] = []c09Reply{c09B(b)}
+			}
+			s[0] = []c09Reply{c09B(forged[sc.n])}
+			pr.kind = "liar"
+		} else {
+			pr.kind = "honest"
+		}
+		pr.script, pr.validating = s, true
+	}
+	for _, i := range r.Perm(len(sc.provs)) {
+		sc.order = append(sc.order, sc.provs[i].id)
+	}
+	return sc
+}
+
 // ---------------------------------------------------------------- directed regression cases
 
 // F2: the only answering witness serves, at the target height, a block signed by unknown keys
@@ -2961,6 +3091,27 @@ func TestVerifC09Client(t *testing.T) {
 					}
 				}
 			}
+		}
+	}
+	// bisection families (trust level of pivots; validator set of the trusted end); appended
+	for rep := 0; rep < vg.Scale(1, 4); rep++ {
+		for _, l := range [][2]uint64{{1, 2}, {2, 3}, {3, 5}, {4, 7}} {
+			id := cs.NextID()
+			if !cs.Want(id) {
+				continue
+			}
+			kind := fmt.Sprintf("pivot-level-%d/%d", l[0], l[1])
+			c09PivotLevel(root.Fork(uint64(id)), l[0], l[1]).run(cs, id, kind,
+				kind+": every provider serves, from the first pivot on, blocks signed by more than 1/3 but not more than the trust level of the trusted set")
+		}
+		for _, collude := range []bool{false, true} {
+			id := cs.NextID()
+			if !cs.Want(id) {
+				continue
+			}
+			kind := fmt.Sprintf("stale-set/colluding-witness=%v", collude)
+			c09StaleSet(root.Fork(uint64(id)), collude).run(cs, id, kind,
+				kind+": the set changed between root and pivot; the fork is signed by a validator strong in the root's set and weak in the pivot's")
 		}
 	}
 	if len(c09Blocked) > 0 {
